@@ -106,6 +106,32 @@ def run(ctx):
                     except Exception as ex: e2['raised'] = type(ex).__name__
                     seq.append(e2)
             traces.append(dict(ev=seq)); ctx.mark(('duplex', b, r, rep))
+    # an object in the native (LSB-first) bit order: sponge call with a ragged bit length, duplex calls, ragged sponge call again - the order setting survives
+    for b, r in ((200, 72), (1600, 1088), (25, 11)):
+        h = Keccak(b=b, r=r, len=min(r, 64)); h.duplexing = True; seq = []
+        for j in range(5):
+            if j in (1, 2):
+                L = [0, r - 2, 5][(j + b) % 3]; M = msg(rnd, L, 0, 0); d = [r, 1][j % 2]
+                e = dict(op='duplex', b=b, r=r, d=d, m=B(M), bitlen=L if L else -1, raised='', obs=[])
+                try: e['obs'] = B(h.duplex(M, L if L else None, d))
+                except Exception as ex: e['raised'] = type(ex).__name__
+            else:
+                L = [13, 8 * 9 + 3, r + 1][j % 3]; M = msg(rnd, L, 0, 0)
+                e = dict(op='call', b=b, r=r, d=min(r, 64), nist=False, m=B(M), bitlen=L, raised='', obs=[])
+                try: e['obs'] = B(h(M, L))
+                except Exception as ex: e['raised'] = type(ex).__name__
+            seq.append(e)
+        traces.append(dict(ev=seq)); ctx.mark(('native order + duplex', b, r))
+    # a REFUSED call that carried a per-call rate (bit length beyond the data), then ordinary calls: the configured rate is back
+    for b, r0, r2 in ((1600, 1088, 1344), (200, 72, 136), (200, 72, 40)):
+        h = Keccak(b=b, r=r0, len=64); seq = []
+        for j, (M, L, rr) in enumerate(((msg(rnd, 40, 0, 0), None, None), (b'ab', 17, r2), (msg(rnd, 8 * 30, 0, 0), None, None), (b'abc', 25, r2), (msg(rnd, 8 * 20 - 3, 0, 0), 8 * 20 - 3, None))):
+            e = dict(op='call', b=b, r=rr or r0, d=64, nist=True, m=B(M), bitlen=-1 if L is None else L, raised='', obs=[])
+            try:
+                out = h(M, L, rr) if rr else (h(M, L) if L else h(M)); e['obs'] = B(out)
+            except Exception as ex: e['raised'] = type(ex).__name__
+            seq.append(e)
+        traces.append(dict(ev=seq)); ctx.mark(('refused call with rate', b, r0, r2))
     # one long-lived object called at several rates (larger, then smaller, then the configured one): per-call r applies to that call only
     from crysp.keccak import Keccak
     for b, r0, rs in ((1600, 1088, (1344, None, 1027, 1024, None)), (200, 72, (136, None, 40, None)), (25, 11, (20, 3, None, 24, None)), (200, 72, (40, 136, None)), (1600, 1088, (576, None))) + (((800, 544, (700, None, 100, None)),) if big else ()):
